@@ -936,7 +936,7 @@ def _r8_ensure_type(ctx):
         fv = next((ev.ex(k.value) for k in c.keywords if k.arg == "fillvalue"), None)
         return [tuple(t) for t in itertools.zip_longest(*a, fillvalue=fv)]
     models = {"object": lambda ev, c: Obj(tag="sentinel"), "zip_longest": zl, "itertools.zip_longest": zl, "ValueError": lambda ev, c: Obj(tag="ValueError", _isa=("ValueError", "Exception")),
-              "warnings.warn": lambda ev, c: None, "np.ascontiguousarray": lambda ev, c: ev.ex(c.args[0])}
+              "warnings.warn": lambda ev, c: None, "np.ascontiguousarray": lambda ev, c: ev.ex(c.args[0]), "str": lambda ev, c: "S"}       # str(): only ever part of a message
     for shp, have, accept in (((0,), (2,), False), ((3,), (2,), False), ((2,), (2,), True), ((None,), (2,), True), ((0, 3), (2, 3), False), ((None, 3), (2, 3), True), ((2, None), (2, 4), True), ((2, 3), (2, 4), False)):
         desc = "ensure_type(array of shape %s, shape=%s) is %s" % (have, shp, "accepted" if accept else "refused")
         try:
